@@ -80,6 +80,13 @@ def gen_cases(rng, n_random):
         cases.append([rng.choice(OPS), r, r2])
         lo = rloc(); lo2 = rng.choice([rloc(), lo, ["loc", lo[1], rrng()], ["loc", "file:///zz", lo[2]]])
         cases.append([rng.choice(OPS), lo, lo2])
+    # locations whose uris differ only in spelling (percent-encoding, case, trailing slash): structural equality says unequal
+    r0 = ["rng", ["pos", 1, 2], ["pos", 3, 4]]
+    spell = ["file:///dir/a%20b.py", "file:///dir/a b.py", "file:///c%3A/x", "file:///c:/x", "file:///c%3a/x", "FILE:///dir/a%20b.py", "file:///dir/a%20b.py/", "file:///dir/A%20b.py"]
+    for u in spell:
+        for w in spell:
+            for op in ("Eq", "Ne"):
+                cases.append([op, ["loc", u, r0], ["loc", w, r0]])
     unrel = [["other"], ["none"], ["int", 3], ["str", "1:2"], ["tup", [["int", 1], ["int", 2]]]]
     for x in (rpos(), rrng(), rloc()):
         for u in unrel + [rpos(), rrng(), rloc()]:
